@@ -98,6 +98,10 @@ func rulePos(c *Ctx) {
 	// Hint literals in the commit cone
 	commit := c.P.MustFunc("(*Tx).Commit")
 	n := 0
+	inCommitCone := map[*ssa.Function]bool{}
+	for _, g := range c.P.ModCone(commit) {
+		inCommitCone[g] = true
+	}
 	for _, g := range c.P.ModCone(commit) {
 		for _, h := range hintAllocs(g) {
 			n++
@@ -113,6 +117,17 @@ func rulePos(c *Ctx) {
 					if s.Parent() == f {
 						posVal = resolve1(s.Common().Args[paramIndex(g, p)])
 						idxCall = s
+					} else if inCommitCone[s.Parent()] {
+						// a second indexing site outside the write loop: it cannot read the position and the
+						// file id at the moment the record is written
+						lf := resolve1(fs["fileID"])
+						live := isFieldLoad(lf, "DataFile", "fileID") && func() bool { _, b := lastField(lf); return isFieldLoad(b, "DB", "ActiveFile") }()
+						if live {
+							c.bad(fnName(g), det+": indexed only from the commit write loop", c.P.ipos(s),
+								"the hint is also built from "+fnName(s.Parent())+", outside the loop that writes the records, yet its file id is a live read of DB.ActiveFile.fileID: later records of the transaction may have rotated the active file, so the hint pairs the old offset with the new segment and HintKeyAndRAMIdxMode reads another record")
+						} else {
+							c.undecided(fnName(g), det+": indexed only from the commit write loop", c.P.ipos(s), "the hint is also built from "+fnName(s.Parent())+" with a recorded file id; the rule cannot relate it to the segment the record was written to")
+						}
 					}
 				}
 			} else if g == f {
